@@ -11,7 +11,19 @@ HDRS = $(wildcard sim/*.hpp) $(shell find $(REPO)/include -name '*.hpp')
 
 ASAN_OBJS = $(addprefix $(B)/asan/,$(addsuffix .o,$(GENERIC) $(addprefix pol_,$(POLS))))
 
-all: $(B)/yosim.asan
+TSAN_FLAGS = $(COMMON) -O1 -gline-tables-only -fno-omit-frame-pointer -fsanitize=thread -DYS_NO_NEW_REPLACEMENT
+TSAN_POLS = rel dbg ind map cind sdbg
+TSAN_GENERIC = common plan exec gen sched
+TSAN_OBJS = $(addprefix $(B)/tsan/,$(addsuffix .o,$(TSAN_GENERIC) $(addprefix pol_,$(TSAN_POLS))))
+
+all: $(B)/yosim.asan $(B)/yosched.tsan
+
+$(B)/tsan/%.o: sim/%.cpp $(HDRS)
+	@mkdir -p $(B)/tsan
+	$(CXX_ASAN) $(TSAN_FLAGS) -c $< -o $@
+
+$(B)/yosched.tsan: $(TSAN_OBJS)
+	$(CXX_ASAN) $(TSAN_FLAGS) $^ -o $@ -lpthread
 
 $(B)/asan/%.o: sim/%.cpp $(HDRS)
 	@mkdir -p $(B)/asan
